@@ -1,9 +1,62 @@
+use walleye::{checks, referee};
+
+fn usage() -> ! {
+    eprintln!("usage: wsim check <id> [--tier quick|thorough] [--seed N]\n       wsim replay <file>\n       wsim selftest [referee|determinism|fidelity]");
+    std::process::exit(2)
+}
+
 fn main() {
-    match walleye::referee::self_check(4) {
-        Ok(n) => println!("referee ok, {} nodes", n),
-        Err(e) => {
-            println!("referee self-check failed: {}", e);
-            std::process::exit(2);
+    let args: Vec<String> = std::env::args().collect();
+    if args.len() < 2 {
+        usage();
+    }
+    match args[1].as_str() {
+        "check" => {
+            if args.len() < 3 {
+                usage();
+            }
+            let id = args[2].clone();
+            let mut tier = std::env::var("VERIF_TIER").unwrap_or_else(|_| "quick".into());
+            let mut seed: Option<u64> = std::env::var("VERIF_SEED").ok().and_then(|s| s.parse().ok());
+            let mut i = 3;
+            while i < args.len() {
+                match args[i].as_str() {
+                    "--tier" => {
+                        tier = args.get(i + 1).cloned().unwrap_or_else(|| usage());
+                        i += 1;
+                    }
+                    "--seed" => {
+                        seed = args.get(i + 1).and_then(|s| s.parse().ok());
+                        i += 1;
+                    }
+                    _ => usage(),
+                }
+                i += 1;
+            }
+            if tier != "quick" && tier != "thorough" {
+                usage();
+            }
+            let seed = seed.unwrap_or_else(|| checks::default_seed(&id));
+            println!("VERIF_SEED={} check={} tier={}", seed, id, tier);
+            if let Err(e) = referee::self_check(if tier == "quick" { 3 } else { 4 }) {
+                eprintln!("harness error: referee self-check failed: {}", e);
+                std::process::exit(2);
+            }
+            std::process::exit(checks::run_check(&id, &tier, seed));
         }
+        "replay" => {
+            if args.len() < 3 {
+                usage();
+            }
+            std::process::exit(checks::replay_file(&args[2]));
+        }
+        "selftest" => match referee::self_check(4) {
+            Ok(n) => println!("referee ok, {} nodes", n),
+            Err(e) => {
+                eprintln!("referee self-check failed: {}", e);
+                std::process::exit(2);
+            }
+        },
+        _ => usage(),
     }
 }
